@@ -1,7 +1,7 @@
 (* Properties_C09.v — property C09: every policy is a coherent probability distribution over
    actions.  Only statements, each closed by [exact <lemma>] and followed by Print Assumptions. *)
 From Coq Require Import List Arith ZArith QArith Qminmax Bool Lia.
-From AIT Require Import Base.Qx C09.Model C09.Spec C09.ProofsGreedy C09.ProofsMix C09.ProofsSoftmax C09.ProofsWolf.
+From AIT Require Import Base.Qx C09.Model C09.Spec C09.ProofsGreedy C09.ProofsMix C09.ProofsSoftmax C09.ProofsWolf C09.ProofsPga.
 Import ListNotations.
 Local Open Scope Q_scope.
 
@@ -145,6 +145,30 @@ Print Assumptions wolf_rows_dist.
 Example ex_wolf_nonvacuous :
   forallb (fun r => is_distb (w_act r)) (wolf_run (1#8) (1#2) 4 [[1; -2; 1]; [0; 3; -1]] 3 [(0%nat, 1%nat); (1%nat, 0%nat); (0%nat, 0%nat)]) = true.
 Proof. vm_compute. reflexivity. Qed.
+
+(* ------------------------------------------------------------------ PGAAPPPolicy *)
+(* projectToProbability (repaired, 31ee3cf; local re-model of the function property C08 owns):
+   for every non-empty input the result has the same length, no negative entry, and a sum within
+   the library's tolerance of one — i.e. isProbability accepts it *)
+Theorem pga_project_valid : forall v, v <> [] ->
+  length (project v) = length v /\ is_dist_tol epsS (project v).
+Proof. exact project_valid_local. Qed.
+Print Assumptions pga_project_valid.
+
+(* every history of stepUpdateP calls (any states, any learning rate / prediction length, any
+   Q-function) leaves every row of the policy matrix a probability vector in that sense *)
+Theorem pgaapp_rows_dist : forall lr pl qm A ops, (1 <= A)%nat -> Forall (fun r => length r = A) qm ->
+  length (pga_run lr pl qm A ops) = length qm /\
+  Forall (fun r => length r = A /\ is_dist_tol epsS r) (pga_run lr pl qm A ops).
+Proof. exact pgaapp_rows_dist_lemma. Qed.
+Print Assumptions pgaapp_rows_dist.
+
+(* reaches a vertex of the simplex after one update, then keeps projecting negative entries away *)
+Example ex_pgaapp_nonvacuous :
+  veqb (row (pga_run (1#10) (1#2) [[10; 0; 0]] 3 [0%nat]) 0) [1; 0; 0] = true /\
+  veqb (pga_grad_row (1#10) (1#2) [10; 0; 0] [1; 0; 0]) [1; -1; -1] = true /\
+  veqb (row (pga_run (1#10) (1#2) [[10; 0; 0]] 3 [0%nat; 0%nat]) 0) [1; 0; 0] = true.
+Proof. vm_compute. repeat split. Qed.
 
 (* ------------------------------------------------------------------ hypotheses are satisfiable *)
 Example ex_softmax_nonvacuous : exp_like ex_step /\ eqSmall (1#2) 0 = false /\
